@@ -139,6 +139,13 @@ class World:
             a, ra, _ = self.operand(st[2])
             res = (-a) if op == "neg" else getattr(qq, op)(a)
             return self._register(res, ("un", op, ra))
+        if st[0] == "deg":
+            # q.sind(x) = sin(x / 180 * pi): the library builds three calculated quantities
+            a, ra, _ = self.operand(st[2])
+            res = getattr(qq, st[1] + "d")(a)
+            i1 = self._register(None, ("bin", "div", ra, ["const", 180]))
+            i2 = self._register(None, ("bin", "mul", ["obj", i1], ["const", math.pi]))
+            return self._register(res, ("un", st[1], ["obj", i2]))
         if st[0] == "bin":
             op = st[1]
             a, ra, pa = self.operand(st[2])
@@ -196,6 +203,7 @@ def gen_program(rng, n_meas=None, n_ops=None, rational_only=False, allow_pairs=T
     n_meas = n_meas or rng.randrange(1, 5)
     n_ops = n_ops or rng.randrange(1, 9)
     steps, vals, kinds = [], [], []      # vals: float value of each object id
+    hidden = set()                       # intermediate results the harness holds no reference to
     for _ in range(n_meas):
         v = dyadic(rng, -3, 8)
         if abs(v) < 0.25:
@@ -211,11 +219,25 @@ def gen_program(rng, n_meas=None, n_ops=None, rational_only=False, allow_pairs=T
 
         def pick_obj():
             # prefer recent objects so that intermediate results get reused (sharing)
-            i = rng.randrange(len(vals))
-            if rng.random() < 0.5:
-                i = max(i, rng.randrange(len(vals)))
-            return i
+            while True:
+                i = rng.randrange(len(vals))
+                if rng.random() < 0.5:
+                    i = max(i, rng.randrange(len(vals)))
+                if i not in hidden:
+                    return i
         r = rng.random()
+        if not rational_only and r > 0.93:
+            fn = rng.choice(["sin", "cos", "tan", "sec", "csc", "cot"])
+            i = pick_obj()
+            arg = vals[i] / 180 * math.pi
+            if abs(vals[i]) > 720 or not in_domain_un(fn, arg):
+                continue
+            steps.append(["deg", fn, ["obj", i]])
+            hidden.update([len(vals), len(vals) + 1])
+            vals.extend([vals[i] / 180, arg, py_un(fn, arg)])
+            kinds.extend(["der", "der", "der"])
+            made += 1
+            continue
         if r < (0.25 if rational_only else 0.45):
             op = "neg" if rational_only or rng.random() < 0.15 else rng.choice(UN_FUNCS)
             i = pick_obj()
